@@ -58,6 +58,7 @@ static void pp_ini_file_parameter_free (PIniParameter *param);
 static PIniSection * pp_ini_file_section_new (const pchar *name);
 static void pp_ini_file_section_free (PIniSection *section);
 static pchar * pp_ini_file_find_parameter (const PIniFile *file, const pchar *section, const pchar *key);
+static pboolean pp_ini_file_list_add (PList **list, ppointer data, pboolean prepend);
 
 static PIniParameter *
 pp_ini_file_parameter_new (const pchar	*name,
@@ -135,6 +136,26 @@ pp_ini_file_find_parameter (const PIniFile *file, const pchar *section, const pc
 			return p_strdup (((PIniParameter *) item->data)->value);
 
 	return NULL;
+}
+
+static pboolean
+pp_ini_file_list_add (PList **list, ppointer data, pboolean prepend)
+{
+	PList *item;
+
+	/* Allocate a node alone to be able to detect a failure */
+	if (P_UNLIKELY ((item = p_list_append (NULL, data)) == NULL))
+		return FALSE;
+
+	if (*list == NULL)
+		*list = item;
+	else if (prepend) {
+		item->next = *list;
+		*list      = item;
+	} else
+		p_list_last (*list)->next = item;
+
+	return TRUE;
 }
 
 P_LIB_API PIniFile *
@@ -249,8 +270,8 @@ p_ini_file_parse (PIniFile	*file,
 				if (section != NULL) {
 					if (section->keys == NULL)
 						pp_ini_file_section_free (section);
-					else
-						file->sections = p_list_prepend (file->sections, section);
+					else if (P_UNLIKELY (pp_ini_file_list_add (&file->sections, section, TRUE) == FALSE))
+						pp_ini_file_section_free (section);
 				}
 
 				section = pp_ini_file_section_new (key);
@@ -279,8 +300,9 @@ p_ini_file_parse (PIniFile	*file,
 					if (!is_quoted && (strcmp (value, "\"\"") == 0 || (strcmp (value, "''") == 0)))
 						value[0] = '\0';
 
-					if (section != NULL && (param = pp_ini_file_parameter_new (key, value)) != NULL)
-						section->keys = p_list_prepend (section->keys, param);
+					if (section != NULL && (param = pp_ini_file_parameter_new (key, value)) != NULL &&
+					    P_UNLIKELY (pp_ini_file_list_add (&section->keys, param, TRUE) == FALSE))
+						pp_ini_file_parameter_free (param);
 				}
 			}
 		}
@@ -292,8 +314,8 @@ p_ini_file_parse (PIniFile	*file,
 	if (section != NULL) {
 		if (section->keys == NULL)
 			pp_ini_file_section_free (section);
-		else
-			file->sections = p_list_append (file->sections, section);
+		else if (P_UNLIKELY (pp_ini_file_list_add (&file->sections, section, FALSE) == FALSE))
+			pp_ini_file_section_free (section);
 	}
 
 	if (P_UNLIKELY (fclose (in_file) != 0))
@@ -318,6 +340,7 @@ p_ini_file_sections (const PIniFile *file)
 {
 	PList	*ret;
 	PList	*sec;
+	pchar	*name;
 
 	if (P_UNLIKELY (file == NULL || file->is_parsed == FALSE))
 		return NULL;
@@ -325,7 +348,9 @@ p_ini_file_sections (const PIniFile *file)
 	ret = NULL;
 
 	for (sec = file->sections; sec != NULL; sec = sec->next)
-		ret = p_list_prepend (ret, p_strdup (((PIniSection *) sec->data)->name));
+		if ((name = p_strdup (((PIniSection *) sec->data)->name)) != NULL &&
+		    P_UNLIKELY (pp_ini_file_list_add (&ret, name, TRUE) == FALSE))
+			p_free (name);
 
 	return ret;
 }
@@ -336,6 +361,7 @@ p_ini_file_keys (const PIniFile	*file,
 {
 	PList	*ret;
 	PList	*item;
+	pchar	*name;
 
 	if (P_UNLIKELY (file == NULL || file->is_parsed == FALSE || section == NULL))
 		return NULL;
@@ -350,7 +376,9 @@ p_ini_file_keys (const PIniFile	*file,
 		return NULL;
 
 	for (item = ((PIniSection *) item->data)->keys; item != NULL; item = item->next)
-		ret = p_list_prepend (ret, p_strdup (((PIniParameter *) item->data)->name));
+		if ((name = p_strdup (((PIniParameter *) item->data)->name)) != NULL &&
+		    P_UNLIKELY (pp_ini_file_list_add (&ret, name, TRUE) == FALSE))
+			p_free (name);
 
 	return ret;
 }
@@ -463,6 +491,7 @@ p_ini_file_parameter_list (const PIniFile	*file,
 	PList		*ret = NULL;
 	pchar		*val;
 	const pchar	*str;
+	pchar		*name;
 	pchar		buf[P_INI_FILE_MAX_LINE + 1];
 	psize		len;
 	psize		buf_cnt;
@@ -488,8 +517,10 @@ p_ini_file_parameter_list (const PIniFile	*file,
 		else {
 			buf[buf_cnt] = '\0';
 
-			if (buf_cnt > 0)
-				ret = p_list_append (ret, p_strdup (buf));
+			if (buf_cnt > 0 &&
+			    (name = p_strdup (buf)) != NULL &&
+			    P_UNLIKELY (pp_ini_file_list_add (&ret, name, FALSE) == FALSE))
+				p_free (name);
 
 			buf_cnt = 0;
 		}
@@ -499,7 +530,10 @@ p_ini_file_parameter_list (const PIniFile	*file,
 
 	if (buf_cnt > 0) {
 		buf[buf_cnt] = '\0';
-		ret = p_list_append (ret, p_strdup (buf));
+
+		if ((name = p_strdup (buf)) != NULL &&
+		    P_UNLIKELY (pp_ini_file_list_add (&ret, name, FALSE) == FALSE))
+			p_free (name);
 	}
 
 	p_free (val);
